@@ -160,7 +160,9 @@ def gen_c10(rng: random.Random, tier: str) -> Plan:
         kinds = ["categorical", "categorical", "gaussian", "embedding", "binomial"]
     else:
         kinds = ["embedding", "embedding", "categorical", "gaussian"]
-    rg = recipes.gen_rg(rng, max_vars=5)
+    # six variables (2x3 grids) now and then: inner regions with several partitionings, i.e.
+    # mixing layers with more than one unit below the root
+    rg = recipes.gen_rg(rng, max_vars=6 if rng.random() < 0.2 else 5)
     nv = recipes.rg_num_vars(rg)
     hand = (not poly) and rng.random() < 0.15
     if hand:
@@ -463,7 +465,7 @@ def gen_c19(rng: random.Random, tier: str) -> Plan:
         kinds = ["polynomial"] if poly else (
             ["categorical", "categorical", "gaussian", "embedding", "binomial"] if monotonic
             else ["embedding", "embedding", "categorical", "gaussian"])
-        rg = recipes.gen_rg(rng, max_vars=5)
+        rg = recipes.gen_rg(rng, max_vars=6 if rng.random() < 0.2 else 5)
         nv = recipes.rg_num_vars(rg)
         r0 = recipes.gen_rg_circuit(rng, monotonic=monotonic, rg=rg, kinds=kinds)
         if not monotonic and cfg["semiring"] == "complex-lse-sum" and rng.random() < 0.5:
@@ -581,7 +583,8 @@ def gen_c12(rng: random.Random, tier: str) -> Plan:
     cfg["batches"] = [rng.choice([3, 5]), 1]
     cfg["check_subset"] = 2
     if rng.random() < 0.4:
-        r0 = recipes.gen_rg_circuit(rng, monotonic=True, normalized=True, max_vars=5,
+        r0 = recipes.gen_rg_circuit(rng, monotonic=True, normalized=True,
+                                    max_vars=6 if rng.random() < 0.25 else 5,
                                     kinds=["categorical", "categorical", "binomial", "gaussian",
                                            "embedding"])
         nv = recipes.rg_num_vars(r0["rg"])
